@@ -2,8 +2,9 @@ CONSTANTS
   PageSize = 134217728
   AtomicPut = TRUE
   ClampConsumed = TRUE
+  MetaByPage = TRUE
 SPECIFICATION TraceSpec
-INVARIANTS Readable DurablyReadable Dense MemoryMatchesDisk GroupOrder QAckBounds
+INVARIANTS Readable DurablyReadable Dense MemoryMatchesDisk GroupDirs GroupOrder QAckBounds
 PROPERTIES TQAckMonotone TQAckMovesBelowMin
 CONSTRAINT HighWater
 POSTCONDITION TraceAccepted
